@@ -154,6 +154,11 @@ void setMinterm(const Dom& D, bool rel, size_t idx, MEDDLY::minterm& m);
 std::vector<Val> tableOf(const Dom& D, const MEDDLY::dd_edge& e);
 std::string tableStr(const std::vector<Val>& t);
 
+// a table with STRUCTURE: every variable gets a role - general (takes part in a random base function), free (the
+// function does not depend on it: redundant levels), fixed (x = c; relations: also x' = c' or x' free), identity
+// (relations: x' = x) - so that skipped levels, long edges and identity patterns of every rule occur
+std::vector<Val> structuredTable(Rng& r, const Dom& D, const Kind& k, unsigned density);
+
 // build an edge denoting exactly `t` (one minterm per non-default assignment,
 // buildFunctionMax with default = transparent value or the minimum)
 void buildFromTable(const Dom& D, MEDDLY::forest* F, const Kind& k, const std::vector<Val>& t, MEDDLY::dd_edge& out);
